@@ -1,0 +1,18 @@
+//! Verification hooks. Compiled only with `--cfg cstree_verif`; with the flag off this module does
+//! not exist and none of the call sites are compiled.
+#![allow(missing_docs)]
+
+use std::sync::atomic::{AtomicU32, Ordering};
+
+static HASH_MASK: AtomicU32 = AtomicU32::new(u32::MAX);
+
+/// Mask and-ed into every computed `child_hash` (default: all ones, i.e. no effect). A narrow mask
+/// makes node-cache key collisions frequent.
+#[inline]
+pub fn hash_mask() -> u32 {
+    HASH_MASK.load(Ordering::Relaxed)
+}
+
+pub fn set_hash_mask(mask: u32) {
+    HASH_MASK.store(mask, Ordering::Relaxed);
+}
